@@ -22,6 +22,12 @@ pub(crate) struct BootstrapMethodRead {
 	pub(crate) arguments: Vec<u16>,
 }
 
+/// How deep `Dynamic` entries may be nested as bootstrap arguments of other `Dynamic` or `InvokeDynamic` entries.
+///
+/// A `Dynamic` entry that is (directly or indirectly) its own bootstrap argument can't be resolved at all (see JVMS 5.4.3.6),
+/// and following such a cycle, or a very long chain, would overflow the stack.
+const MAX_BOOTSTRAP_ARGUMENT_NESTING: usize = 64;
+
 #[derive(Debug, Clone, PartialEq, Eq, Hash)]
 enum PoolEntry {
 	Class { name_index: u16 },
@@ -201,10 +207,14 @@ impl PoolEntry {
 		MethodDescriptor::try_from(pool.get_utf8(descriptor_index).context("while getting method type")?)
 	}
 
-	fn as_dynamic(&self, pool: &PoolRead, bootstrap_methods: &Option<Vec<BootstrapMethodRead>>) -> Result<ConstantDynamic> {
+	fn as_dynamic(&self, pool: &PoolRead, bootstrap_methods: &Option<Vec<BootstrapMethodRead>>, nesting: usize) -> Result<ConstantDynamic> {
 		let PoolEntry::Dynamic { bootstrap_method_attribute_index, name_and_type_index } = *self else {
 			bail!("pool entry not `Dynamic`: {self:?}");
 		};
+
+		if nesting > MAX_BOOTSTRAP_ARGUMENT_NESTING {
+			bail!("`Dynamic` pool entries are nested more than {MAX_BOOTSTRAP_ARGUMENT_NESTING} deep as bootstrap arguments, is an entry its own argument?");
+		}
 
 		let FieldNameAndDesc { name, desc: descriptor } = pool.get_field_name_and_type(name_and_type_index)?;
 
@@ -218,7 +228,7 @@ impl PoolEntry {
 		let arguments = {
 			let mut vec = Vec::with_capacity(method.arguments.len());
 			for &argument in &method.arguments {
-				let value = pool.get_loadable(argument, bootstrap_methods)
+				let value = pool.get_loadable_nested(argument, bootstrap_methods, nesting + 1)
 					.with_context(|| anyhow!("while argument for `Dynamic` at index {bootstrap_method_attribute_index:?}: {name:?} {descriptor:?} {handle:?}"))?;
 				vec.push(value); // TODO: recursion
 			}
@@ -245,7 +255,7 @@ impl PoolEntry {
 		let arguments = {
 			let mut vec = Vec::with_capacity(method.arguments.len());
 			for &argument in &method.arguments {
-				let value = pool.get_loadable(argument, bootstrap_methods)
+				let value = pool.get_loadable_nested(argument, bootstrap_methods, 1)
 					.with_context(|| anyhow!("while argument for `InvokeDynamic` at index {bootstrap_method_attribute_index:?}: {name:?} {descriptor:?} {handle:?}"))?;
 				vec.push(value); // TODO: recursion
 			}
@@ -255,7 +265,7 @@ impl PoolEntry {
 		Ok(InvokeDynamic { name, descriptor, handle, arguments })
 	}
 
-	fn as_loadable(&self, pool: &PoolRead, bootstrap_methods: &Option<Vec<BootstrapMethodRead>>) -> Result<Loadable> {
+	fn as_loadable(&self, pool: &PoolRead, bootstrap_methods: &Option<Vec<BootstrapMethodRead>>, nesting: usize) -> Result<Loadable> {
 		match self {
 			PoolEntry::Integer { .. } => Ok(Loadable::Integer(self.as_integer()?)),
 			PoolEntry::Float { .. } => Ok(Loadable::Float(self.as_float()?)),
@@ -265,7 +275,7 @@ impl PoolEntry {
 			PoolEntry::String { .. } => Ok(Loadable::String(self.as_string(pool)?)),
 			PoolEntry::MethodHandle { .. } => Ok(Loadable::MethodHandle(self.as_method_handle(pool)?)),
 			PoolEntry::MethodType { .. } => Ok(Loadable::MethodType(self.as_method_type(pool)?)),
-			PoolEntry::Dynamic { .. } => Ok(Loadable::Dynamic(self.as_dynamic(pool, bootstrap_methods)?)),
+			PoolEntry::Dynamic { .. } => Ok(Loadable::Dynamic(self.as_dynamic(pool, bootstrap_methods, nesting)?)),
 			_ => bail!("pool entry is not loadable: {self:?}"),
 		}
 	}
@@ -507,7 +517,12 @@ impl PoolRead {
 	///
 	/// These are collected in the [`Loadable`] type.
 	pub(crate) fn get_loadable(&self, index: u16, bootstrap_methods: &Option<Vec<BootstrapMethodRead>>) -> Result<Loadable> {
-		self.get(index)?.as_loadable(self, bootstrap_methods).pool_context(index)
+		self.get_loadable_nested(index, bootstrap_methods, 0)
+	}
+
+	/// Gets a loadable constant pool entry that is needed as a bootstrap argument, `nesting` levels below an instruction.
+	fn get_loadable_nested(&self, index: u16, bootstrap_methods: &Option<Vec<BootstrapMethodRead>>, nesting: usize) -> Result<Loadable> {
+		self.get(index)?.as_loadable(self, bootstrap_methods, nesting).pool_context(index)
 	}
 
 	pub(crate) fn get_constant_value(&self, index: u16) -> Result<ConstantValue> {
